@@ -88,6 +88,18 @@ Definition expected_reload_locks : list (string * string) :=
 Theorem source_reload_locks : gen_reload_locks = [] \/ gen_reload_locks = expected_reload_locks.
 Proof. vm_compute. first [left; reflexivity | right; reflexivity]. Qed.
 
+(** the global max level is published INSIDE the writer section: `LevelFilter::set_max` is called by `rebuild_interest` (and by nobody
+    else in the std registry), and the guards of `rebuild_interest_cache` / `register` / `register_dispatch` are bound directly in the
+    function body (block depth 1), i.e. they live until the function returns -- so [PWrSetMax] comes before [PWrUnlock], and the
+    push of `register` before its unlock.  Computing and publishing MAX_LEVEL is one critical section. *)
+Definition expected_set_max_fns : list string := ["rebuild_interest"].
+Definition expected_guard_depth : list (string * nat) :=
+  [("rebuild_interest_cache", 1); ("register", 1); ("register_dispatch", 1)].
+
+Theorem source_set_max_under_lock :
+  (gen_set_max_fns = [] /\ gen_guard_depth = []) \/ (gen_set_max_fns = expected_set_max_fns /\ gen_guard_depth = expected_guard_depth).
+Proof. vm_compute. first [left; split; reflexivity | right; split; reflexivity]. Qed.
+
 Theorem source_points : gen_yield_ids = [] \/ gen_yield_ids = model_yield_ids.
 Proof. vm_compute. first [left; reflexivity | right; reflexivity]. Qed.
 
